@@ -70,6 +70,10 @@ impl RpcService for SvcR {
 #[datacake_rpc::async_trait]
 impl Handler<M1> for SvcR {
     type Reply = u64;
+    /// message path equal to the service's name
+    fn path() -> &'static str {
+        "re-store"
+    }
     async fn on_message(&self, msg: Request<M1>) -> Result<u64, Status> {
         Ok(msg.x.value() + 5_000)
     }
@@ -95,6 +99,10 @@ impl RpcService for SvcD2 {
 #[datacake_rpc::async_trait]
 impl Handler<M1> for SvcD1 {
     type Reply = u64;
+    /// message path equal to the service's name
+    fn path() -> &'static str {
+        "shared-name"
+    }
     async fn on_message(&self, msg: Request<M1>) -> Result<u64, Status> {
         Ok(msg.x.value() + 4_000)
     }
@@ -134,6 +142,10 @@ impl RpcService for SvcC {
 #[datacake_rpc::async_trait]
 impl Handler<M1> for SvcA {
     type Reply = u64;
+    /// message path equal to the service's name
+    fn path() -> &'static str {
+        "store"
+    }
     async fn on_message(&self, msg: Request<M1>) -> Result<u64, Status> {
         Ok(msg.x.value() + 1_000)
     }
@@ -221,7 +233,7 @@ impl Check for C13 {
         "fault_enumeration"
     }
     fn engine(&self) -> &'static str {
-        "E2: one server host (real datacake-rpc Server over simulated TCP/HTTP2) and one client host (real RpcClient); services A{M1} (named \"store\"), B{M1,M2} (\"store-admin\": A's name is a strict prefix), C{M2} (default name), R (\"re-store\") are added and removed on the running server"
+        "E2: one server host (real datacake-rpc Server over simulated TCP/HTTP2) and one client host (real RpcClient); services A{M1} (named \"store\"), B{M1,M2} (\"store-admin\": A's name is a strict prefix), C{M2} (default name), R (\"re-store\") are added and removed on the running server; A, D1 and R give their message the service's own name as its path"
     }
     fn rule(&self) -> &'static str {
         "Cases: every add/remove history over the alphabet {add A, add B, add C, remove A, remove B, remove C, add D1, add D2, remove \"shared-name\"} (D1 and D2 are two service types registered under one name with different messages) over that 9-step alphabet up to length 4 (7 381 histories, quick) or 5 (66 430, thorough), enumerated completely, plus seeded histories of length 6-14; one seeded history in four also adds and removes a service R, and once removes an R instance whose drop (which runs inside remove_service) has a second OS thread register a fresh R - the registration starts inside the removal, the step ends when both calls returned, R is then registered and a later plain removal must unregister it. After every step the client sends all seven (service, message) pairs - A/M1, B/M1, B/M2, C/M2 (whose handler overrides the message path; sent by value with send_owned on odd steps), shared-name/M1, shared-name/M2, R/M1 - sequentially or concurrently. Oracle: a pair is answered by its own handler (reply identifies the service) iff its service was added and not removed since, otherwise refused with ServiceUnavailable; removing one service never changes the answer of another. Non-trivial = the history contains a removal while another service is registered. Distinct = the history itself."
